@@ -381,8 +381,42 @@ def whole_runs(ctx):
         os.chdir(cwd)
 
 
+def two_mains(ctx):
+    """one Lithium object, two complete command-line runs (`main()`), both without --tempdir: the second run gets a
+    directory of its own and the first run's directory stays as it was"""
+    from lithium.reducer import Lithium
+    cwd = os.getcwd()
+    d = fresh_dir("c20-two-mains")
+    (d / "c20_test.py").write_text("def interesting(args, prefix):\n    return b'b' in open(args[-1], 'rb').read()\n")
+    (d / "tc.txt").write_bytes(b"a\nb\nc\nd\n")
+    os.chdir(d)
+    import sys as _sys
+    _sys.modules.pop("c20_test", None)
+    try:
+        lith = Lithium()
+        rc1 = lith.main(["c20_test.py", "tc.txt"])
+        first = {n: (d / "tmp1" / n).read_bytes() for n in sorted(os.listdir(d / "tmp1"))} if (d / "tmp1").is_dir() else None
+        (d / "tc.txt").write_bytes(b"a\nb\nc\nd\ne\nf\n")
+        rc2 = lith.main(["--char", "c20_test.py", "tc.txt"])
+        names = sorted(n for n in os.listdir(d) if n.startswith("tmp"))
+        after = {n: (d / "tmp1" / n).read_bytes() for n in sorted(os.listdir(d / "tmp1"))} if (d / "tmp1").is_dir() else None
+    except BaseException as exc:  # pylint: disable=broad-except
+        os.chdir(cwd)
+        ctx.fail("sequential", f"two main() calls on one object raised {exc!r}", dict(via="two main() calls"))
+        return
+    finally:
+        os.chdir(cwd)
+        _sys.modules.pop("c20_test", None)
+    ctx.evaluations += 1
+    ctx.bump("two-mains")
+    if (rc1, rc2) != (0, 0) or names != ["tmp1", "tmp2"] or first is None or first != after:
+        ctx.fail("sequential", f"two main() calls on one Lithium object: statuses {(rc1, rc2)}, directories {names}, "
+                 f"first run's directory {'unchanged' if first == after else 'CHANGED by the second run'}", dict(via="two main() calls"))
+
+
 def run(ctx) -> int:
     proof = common.proof_stage(ctx.pid)
+    two_mains(ctx)
     sequential(ctx)
     faults(ctx)
     whole_runs(ctx)
